@@ -352,3 +352,24 @@ def c06_catalogue(tier):
             r["detail"] = "%s: `%s`" % (why, case["query"])
             r["witness"] = {"case": case, "observed": r["detail"], "bounded": True, "how": "vx-replay (real crates)", "cases_tried": r["cases"]}
     return list(kinds.values())
+
+
+def c07_roots(tier):
+    """C07.3: root operation types survive either path - an explicit `schema {}` block that omits a root leaves it absent even if
+    a type happens to carry the conventional name"""
+    r = bounded("C07.3.roots", "explicit `schema { query: .. }` block vs introspection JSON with null mutationType / subscriptionType", "2 schemas x 3 operations")
+    for extra in ("Subscription", "Mutation"):
+        s = {"objects": {"Query": {"fields": [("n", "Int")]}, extra: {"fields": [("n", "Int")]}}, "query": "Query"}
+        sdl = render_sdl(s, explicit_roots=True)
+        js = render_json(s)
+        for q in ("query Q { n }", "subscription S { n }", "mutation M { n }"):
+            a = tokens_of(gen(sdl, "graphql", q))
+            b = tokens_of(gen(js, "json", q))
+            r["cases"] += 1
+            if (a[0], a[1] if a[0] == "ok" else None) != (b[0], b[1] if b[0] == "ok" else None):
+                r["status"] = "fail"
+                r["detail"] = "schema with an ordinary type named %s, operation `%s`: SDL with `schema { query: Query }` gives %s, the JSON with a null root gives %s" % (extra, q, a[0], b[0])
+                r["witness"] = {"case": {"schema": sdl, "schema_ext": "graphql", "query": q, "options": {"mode": "cli"}}, "observed": r["detail"], "bounded": True,
+                                "how": "vx-replay (real crates)", "cases_tried": r["cases"]}
+                return [r]
+    return [r]
